@@ -38,12 +38,17 @@
         },
 @@ SeqGroup::apply_range spec
     requires old(self).wf(), start + len <= u64::MAX, len > 0,
-        start >= old(self).top(),                                  // Raft hands out increasing, disjoint ranges (assumed of the call sites)
-        old(self).a().is_empty() || old(self).b().is_empty(),      // only called while a buffer is free (assumed of the call sites)
-    // nothing that was available is lost, the new block is added, and the least-first order is kept (wf)
+    // C19: a range below what was already applied is DROPPED (its reply was overtaken): nothing changes; otherwise the new block is
+    // added above everything applied so far, no id that is still in the buffer in use is lost, and the least-first order (wf) is kept —
+    // for EVERY order in which range replies arrive and however many buffers are occupied (no assumption on the call sites)
     ensures final(self).wf(),
-        final(self).avail() =~= old(self).avail().union(ids(start as int, start + len)),
-        final(self).top() == start + len,
+        start < old(self).top() ==> *final(self) == *old(self),
+        start >= old(self).top() ==> ({
+            &&& final(self).top() == start + len
+            &&& forall|x: int| #[trigger] final(self).avail().contains(x) ==> old(self).avail().contains(x) || (start <= x < start + len)
+            &&& forall|x: int| start <= x < start + len ==> #[trigger] final(self).avail().contains(x)
+            &&& (old(self).a().is_empty() || old(self).b().is_empty()) ==> final(self).avail() =~= old(self).avail().union(ids(start as int, start + len))
+        }),
 @@ SeqGroup::mark_apply spec
     ensures final(self).a() == old(self).a(), final(self).b() == old(self).b(), final(self).cur_is_a() == old(self).cur_is_a()
 @@ SeqGroup::clear_apply_mark spec
@@ -111,4 +116,52 @@
     ensures r is Ok, r.unwrap() == old(self).next_free(key), final(self).map() =~= old(self).map().insert(key, (r.unwrap() + step) as u64)
 @@ SequenceDbManager::next_range entry
     broadcast use vstd::std_specs::hash::group_hash_axioms;
+    broadcast use group_std_extra;
+@@ SequenceManager::do_next_id spec
+    requires forall|k: Arc<String>| #[trigger] old(self).seq_map@.contains_key(k) ==> old(self).seq_map@[k].wf()
+    // C19 (manager level): the id handed to the caller IS the least id of that sequence's group and is removed from it; other sequences untouched
+    ensures forall|k: Arc<String>| #[trigger] final(self).seq_map@.contains_key(k) ==> final(self).seq_map@[k].wf(),
+        final(self).seq_step == old(self).seq_step,
+        forall|k: Arc<String>| k != *key ==> (final(self).seq_map@.contains_key(k) == old(self).seq_map@.contains_key(k))
+            && (old(self).seq_map@.contains_key(k) ==> #[trigger] final(self).seq_map@[k] == old(self).seq_map@[k]),
+        final(self).seq_map@.contains_key(*key),
+        old(self).seq_map@.contains_key(*key) ==> ({
+            let g0 = old(self).seq_map@[*key];
+            let g1 = final(self).seq_map@[*key];
+            &&& g1.top() == g0.top()
+            &&& match r.0 {
+                Some(v) => g0.avail().contains(v as int) && (forall|x: int| g0.avail().contains(x) ==> v <= x) && g1.avail() =~= g0.avail().remove(v as int),
+                None => g0.avail() =~= Set::<int>::empty() && g1.avail() =~= g0.avail(),
+            }
+        }),
+        !old(self).seq_map@.contains_key(*key) ==> r.0 is None && final(self).seq_map@[*key].avail() =~= Set::<int>::empty() && final(self).seq_map@[*key].top() == 0,
+@@ SequenceManager::do_next_id entry
+    broadcast use vstd::std_specs::hash::group_hash_axioms;
+    broadcast use axiom_seq_key_model;
+    broadcast use group_std_extra;
+@@ SequenceManager::handle_result spec
+    requires forall|k: Arc<String>| #[trigger] old(self).seq_map@.contains_key(k) ==> old(self).seq_map@[k].wf(),
+        match before_result {
+            Ok(SequenceBeforeResult::UseFromRange { start, len, .. }) => start + len <= u64::MAX && len > 0,
+            Ok(SequenceBeforeResult::FillRange { start, len, .. }) => start + len <= u64::MAX && len > 0,
+            Ok(SequenceBeforeResult::DirectRange { start, len }) => start + len <= u64::MAX,
+            _ => true,
+        },
+    ensures forall|k: Arc<String>| #[trigger] final(self).seq_map@.contains_key(k) ==> final(self).seq_map@[k].wf(),
+        // C19: a request that fetched a range is answered with an id that is taken out of the group at that moment — the least one
+        // available after the range was applied (or dropped as stale) — never with a number that stays available
+        match before_result {
+            Ok(SequenceBeforeResult::UseFromRange { key, start, len }) => match r {
+                Ok(SequenceResult::NextId(id)) => final(self).seq_map@.contains_key(key)
+                    && !final(self).seq_map@[key].avail().contains(id as int)
+                    && forall|x: int| #[trigger] final(self).seq_map@[key].avail().contains(x) ==> id < x,
+                Ok(SequenceResult::None) => true,
+                _ => false,
+            },
+            Ok(SequenceBeforeResult::NextId(_, id, _)) => r == Ok::<SequenceResult, anyhow::Error>(SequenceResult::NextId(id)) && final(self).seq_map@ == old(self).seq_map@,
+            _ => true,
+        },
+@@ SequenceManager::handle_result entry
+    broadcast use vstd::std_specs::hash::group_hash_axioms;
+    broadcast use axiom_seq_key_model;
     broadcast use group_std_extra;
